@@ -64,7 +64,13 @@ def normal(t):
                 items.append(nx)
         return items[0] if len(items) == 1 else ('seq', tuple(items))
     if k == 'choice':
-        opts = [normal(x) for x in t[1]]
+        opts = []
+        for x in t[1]:
+            nx = normal(x)
+            if nx[0] == 'choice' and not _mentions(nx, ('cut', 'named', 'namedlist', 'over', 'overlist', 'call')):
+                opts.extend(nx[1])  # a | (b | c) | d  ==  a | b | c | d  when the inner choice cannot commit (no cut, also none behind a call/include) and binds nothing
+            else:
+                opts.append(nx)
         return opts[0] if len(opts) == 1 else ('choice', tuple(opts))
     if k == 'opt':
         inner = normal(t[1])
@@ -76,6 +82,14 @@ def normal(t):
     if len(t) == 2 and isinstance(t[1], tuple):
         return (k, normal(t[1]))
     return t
+
+
+def _mentions(t, tags) -> bool:
+    if isinstance(t, tuple):
+        if t and isinstance(t[0], str):
+            return t[0] in tags or any(_mentions(x, tags) for x in t[1:])
+        return any(_mentions(x, tags) for x in t)
+    return False
 
 
 def _pattern(empty: bool):
@@ -137,6 +151,19 @@ def _terms(deep: bool = False):
         out.append((f'choice({n1} | {n2})', (lambda f1=f1, f2=f2: Stub(Q['Choice'], options=[Stub(Q['Option'], exp=f1()), Stub(Q['Option'], exp=f2())]))))
     for (n1, f1), (n2, f2), (n3, f3) in itertools.product(list(leaves.items()), repeat=3):
         out.append((f'sequence({n1}, {n2}, {n3})', (lambda f1=f1, f2=f2, f3=f3: Stub(Q['Sequence'], sequence=[f1(), f2(), f3()]))))
+    ch = lambda *opts: Stub(Q['Choice'], options=[Stub(Q['Option'], exp=o) for o in opts])  # noqa: E731
+    sq = lambda *xs: Stub(Q['Sequence'], sequence=list(xs))  # noqa: E731
+    gr = lambda x: Stub(Q['Group'], exp=x)  # noqa: E731
+    tk = lambda c: Stub(Q['Token'], token=c)  # noqa: E731
+    cut = lambda: Stub(Q['Cut'])  # noqa: E731
+    out += [
+        ('nested choice without a cut: a | (b | c) | d', lambda: ch(tk('a'), gr(ch(tk('b'), tk('c'))), tk('d'))),
+        ('nested choice with a cut in an inner option: a | (b ~ c | b x) | b d', lambda: ch(tk('a'), gr(ch(sq(tk('b'), cut(), tk('c')), sq(tk('b'), tk('x')))), sq(tk('b'), tk('d')))),
+        ('nested choice with a cut behind a group: a | ((b ~ c) | b x) | b d', lambda: ch(tk('a'), gr(ch(gr(sq(tk('b'), cut(), tk('c'))), sq(tk('b'), tk('x')))), sq(tk('b'), tk('d')))),
+        ('nested choice with a cut in a grouped prefix: a | ((a ~) b | c) | d', lambda: ch(tk('a'), gr(ch(sq(gr(sq(tk('a'), cut())), tk('b')), tk('c'))), tk('d'))),
+        ('nested choice as the last option: a | (b ~ c | d)', lambda: ch(tk('a'), gr(ch(sq(tk('b'), cut(), tk('c')), tk('d'))))),
+        ('nested choice under a name: a | x:(b | c)', lambda: ch(tk('a'), Stub(Q['Named'], name='x', exp=gr(ch(tk('b'), tk('c')))))),
+    ]
     return out
 
 
@@ -157,7 +184,7 @@ def r11_optimizer(a, tier):
     terms = _terms(deep=(tier == 'thorough'))
     if tier != 'thorough':
         # quick: every leaf and depth-1 term, every 5th deeper term
-        head = [t for t in terms if t[0].count('(') <= 1 and not t[0].startswith(('sequence(', 'choice('))]
+        head = [t for t in terms if (t[0].count('(') <= 1 and not t[0].startswith(('sequence(', 'choice('))) or t[0].startswith('nested choice')]
         rest = [t for t in terms if t not in head]
         terms = head + rest[::5]
         rep.text += ' [quick tier: all terms of depth <= 1 and every 5th deeper term; thorough: all, plus all wrapper terms of depth 3]'
